@@ -6,7 +6,12 @@ them, re-lints the result and fixes a second time.  Here:
   * predicate on the implementation alone: no cap/deadline hit, no error on a lintable set, no violation of an enabled
     fixable rule left (unless a conflict was reported), second fix changes nothing;
   * correspondence: Model/FixLoop.v [pass] (one iteration: skip logic, text fixes of Model/Fixes.v, formatter and
-    rename results tabulated from the real fixes) must lead from the files of iteration k to those of iteration k+1."""
+    rename results tabulated from the real fixes) must lead from the files of iteration k to those of iteration k+1.
+  * the command itself (both tiers): `regal fix --force` of the REAL BINARY on a few file sets that exercise the disk phase
+    of cmd/fix.go (moves into directories emptied by the same run, swapped directories, chains, a move plus content
+    fixes): exit status 0, the tree on disk is what Fixer.Fix computed in memory, `regal lint` of the resulting tree
+    reports no violation of an enabled fixable rule, and a second `regal fix` changes nothing (same tree, directories
+    included).  The thorough tier also runs the binary on every regression file set."""
 import base64, collections, json, os, re
 import vlib
 from vlib import clist
@@ -108,6 +113,141 @@ def residual_class(c, v):
     return None
 
 
+ALL_RULES = ['uao', 'nwc', 'nrr', 'fmt', 'v1', 'dpm']
+
+
+def disk_scenarios(ctx):
+    """file sets (corpus format) for the disk phase of the command: every file is in the directory of ANOTHER package,
+    so that directories are emptied by moves and receive moved files in the same run.  Four fixed shapes + one drawn
+    from the run's PRNG (a permutation of 2-4 directories, one or two files each, with or without content fixes)."""
+    plain = 'package %s\n\nallow if input.x == %d\n'
+    out = [
+        {'name': 'disk-swapped-directories', 'rules': ['dpm'], 'mode': 'error', 'files': {
+            '/ws/billing/policy.rego': plain % ('shipping', 1), '/ws/shipping/rules.rego': plain % ('billing', 2)}},
+        {'name': 'disk-moved-into-directory-emptied', 'rules': ALL_RULES, 'mode': 'error', 'files': {
+            '/ws/billing/policy.rego': plain % ('other', 1), '/ws/misc/rules.rego': plain % ('billing', 2),
+            '/ws/misc/main.rego': plain % ('misc', 3)}},
+        {'name': 'disk-chain-of-three-nested', 'rules': ['fmt', 'dpm'], 'mode': 'rename', 'files': {
+            '/ws/a/a.rego': plain % ('b.sub', 1), '/ws/b/sub/b.rego': plain % ('c', 2), '/ws/c/c.rego': plain % ('a', 3),
+            '/ws/c/deep/er/d.rego': plain % ('b', 4)}},
+        {'name': 'disk-swap-plus-content-fixes', 'rules': ALL_RULES, 'mode': 'error', 'files': {
+            '/ws/p/a.rego': 'package q\n\nx = 1 #c\n\nallow if {\n\tregex.match("[0-9]+", input.x)\n}\n',
+            '/ws/q/sub/b.rego': 'package p\n\n#comment\ny  =  "a=b"\n\nz = 2 if   input.y\n'}},
+    ]
+    pool = ['alpha', 'beta/one', 'gamma', 'delta/x/y', 'eps', 'zeta/inner']
+    bodies = ['allow if input.x == %d\n', 'x = %d #c\n', 'r%d  :=  "a=b"\n\ndeny contains m if m := "x"\n',
+              'ok if {\n\tregex.match("a+%d", input.s)\n}\n']
+    k = 2 + ctx.rng.below(3)
+    dirs = ctx.rng.shuffle(pool)[:k]
+    rot = 1 + ctx.rng.below(k - 1)
+    files = {}
+    for i, d in enumerate(dirs):
+        target = dirs[(i + rot) % k]
+        for j in range(1 + ctx.rng.below(2)):
+            n = len(files)
+            files['/ws/%s/f%d.rego' % (d, n)] = 'package %s\n\n%s' % (target.replace('/', '.'), ctx.rng.choice(bodies) % n)
+    out.append({'name': 'disk-drawn-rotation-of-%d' % k, 'rules': ALL_RULES, 'mode': ctx.rng.choice(['error', 'rename']), 'files': files})
+    return out
+
+
+def tree_of(root):
+    """(files: /ws-path -> bytes, directories incl. empty ones) under root, the .regal directory left out"""
+    files, dirs = {}, set()
+    for d, ds, fs in os.walk(root):
+        if '.regal' in ds:
+            ds.remove('.regal')
+        rel = os.path.relpath(d, root)
+        if rel != '.':
+            dirs.add('/ws/' + rel)
+        for f in fs:
+            q = os.path.join(d, f)
+            files['/ws/' + os.path.relpath(q, root)] = open(q, 'rb').read()
+    return files, sorted(dirs)
+
+
+def binary_disk_run(regal, workdir, c):
+    """one file set through the real command: regal fix, regal lint of the result, regal fix again.
+    c: {'files': {path: bytes}, 'rules': [short], 'mode'} -> observations (no verdict here)"""
+    import shutil, subprocess
+    shutil.rmtree(workdir, ignore_errors=True)
+    root = os.path.join(workdir, 'ws')
+    for p, b in c['files'].items():
+        q = os.path.join(root, os.path.relpath(p, '/ws'))
+        os.makedirs(os.path.dirname(q), exist_ok=True)
+        open(q, 'wb').write(b)
+    os.makedirs(os.path.join(root, '.regal'), exist_ok=True)
+    open(os.path.join(root, '.regal', 'config.yaml'), 'w').write('rules: {}\n')
+    enable = [x for r in c['rules'] for x in ('--enable', LONG[r])]
+    fix = [regal, 'fix', '--force', '--disable-all', '--on-conflict', c['mode']] + enable + [root]
+    o = {'cmd': fix[1:-1], 'runs': 0}
+
+    def call(cmd):
+        o['runs'] += 1
+        try:
+            p = subprocess.run(cmd, cwd=root, stdout=subprocess.PIPE, stderr=subprocess.PIPE, timeout=300)
+            return p.returncode, p.stdout.decode('utf-8', 'replace'), p.stderr.decode('utf-8', 'replace')
+        except subprocess.TimeoutExpired:
+            return None, '', 'still running after 300 s'
+    o['fix_exit'], out, err = call(fix)
+    o['fix_output'] = (out + err).replace(workdir, '')[-600:]
+    o['after_fix'] = tree_of(root)
+    if o['fix_exit'] != 0:
+        return o
+    rc, out, err = call([regal, 'lint', '--format', 'json', '--disable-all'] + enable + [root])
+    o['lint_exit'] = rc
+    try:
+        rep = json.loads(out)
+        o['lint_violations'] = [{'title': v['title'], 'file': '/ws/' + os.path.relpath(os.path.join(root, v['location']['file']), root),
+                                 'row': v['location'].get('row'), 'col': v['location'].get('col')} for v in rep.get('violations') or []]
+    except (ValueError, KeyError, TypeError):
+        o['lint_violations'] = None
+        o['lint_output'] = (out + err).replace(workdir, '')[-600:]
+    o['fix2_exit'], out, err = call(fix)
+    o['fix2_output'] = (out + err).replace(workdir, '')[-300:]
+    o['after_fix2'] = tree_of(root)
+    shutil.rmtree(workdir, ignore_errors=True)
+    return o
+
+
+def plain(tree):
+    return {k: v.decode('utf-8', 'backslashreplace') for k, v in tree.items()}
+
+
+def binary_disk_verdicts(c, o, report, cli):
+    """c: the harness' record of the same file set (in memory), o: what the command did on disk"""
+    cli['run'] += o['runs']
+    cli['file_sets'] = cli.get('file_sets', 0) + 1
+    extra = {'binary': True, 'cmd': o['cmd'], 'exit': o['fix_exit'], 'output': o['fix_output'],
+             'on_disk': plain(o['after_fix'][0]), 'directories_on_disk': o['after_fix'][1]}
+    if o['fix_exit'] is None:
+        cli['timeouts'] += 1
+        report('non-termination', c, None, dict(extra, what='regal fix --force (the binary) still running after 300 s'))
+        return
+    if c['err'] or c['conflicts']:
+        return   # the in-memory run failed / reported a conflict: the command refuses, nothing to compare on disk
+    if o['fix_exit'] != 0:
+        cli['failures'] = cli.get('failures', 0) + 1
+        report('binary-fix-fails-on-lintable-input', c, None, dict(extra, what='regal fix --force exits %d on a file set that lint accepts and '
+               'that Fixer.Fix fixes without error or conflict; files left on disk: %s' % (o['fix_exit'], sorted(o['after_fix'][0]))))
+        return
+    if o['after_fix'][0] != files_plain_bytes(c['final']):
+        cli['diffs'] += 1
+        report('binary-differs-from-fixer', c, None, dict(extra, what='files on disk after regal fix --force differ from what Fixer.Fix computed in memory'))
+    if o.get('lint_violations') is None or o['lint_exit'] not in (0, 3):
+        report('binary-result-does-not-lint', c, None, dict(extra, what='regal lint of the fixed tree failed', lint_exit=o.get('lint_exit'),
+               lint_output=o.get('lint_output', '')))
+    else:
+        left = [v for v in o['lint_violations'] if v['title'] in [LONG[r] for r in c['rules']]]
+        for v in left[:1]:
+            cli['violations_left'] = cli.get('violations_left', 0) + 1
+            report('binary-violation-remains', c, None, dict(extra, violation=v, what='regal lint still reports a violation of an enabled fixable '
+                   'rule for the tree regal fix left on disk'))
+    if o['fix2_exit'] != 0 or o['after_fix2'] != o['after_fix']:
+        cli['second_changes'] = cli.get('second_changes', 0) + 1
+        report('binary-second-fix-changes', c, None, dict(extra, what='a second regal fix --force changed the tree (or failed: exit %s %s)'
+               % (o['fix2_exit'], o['fix2_output']), after_second_fix=plain(o['after_fix2'][0]), directories_after_second_fix=o['after_fix2'][1]))
+
+
 def binary_runs(ctx, corpus_sets, cli, report):
     """regal fix --force on disk must finish under a generous timeout and leave the files Fixer.Fix computed in memory"""
     import shutil, subprocess
@@ -159,10 +299,18 @@ LONG = {'uao': 'use-assignment-operator', 'nwc': 'no-whitespace-comment', 'nrr':
         'fmt': 'opa-fmt', 'v1': 'use-rego-v1', 'dpm': 'directory-package-mismatch'}
 
 
-def run_harness(ctx, h, replay=None):
+def run_harness(ctx, h, replay=None, extra_corpus=None):
+    import shutil
     out = os.path.join(ctx.tmp, 'c12.jsonl')
-    corpus = os.path.join(vlib.VERIF, 'corpus', 'C12')
-    cmd = [h, out, ctx.tier, corpus if os.path.isdir(corpus) else '-']
+    corpus = os.path.join(ctx.tmp, 'corpus')
+    os.makedirs(corpus, exist_ok=True)
+    src = os.path.join(vlib.VERIF, 'corpus', 'C12')
+    for f in sorted(os.listdir(src)) if os.path.isdir(src) else []:
+        if f.endswith('.json'):
+            shutil.copy(os.path.join(src, f), os.path.join(corpus, f))
+    if extra_corpus:
+        json.dump(extra_corpus, open(os.path.join(corpus, 'zz_disk_scenarios.json'), 'w'))
+    cmd = [h, out, ctx.tier, corpus]
     if replay:
         cmd.append(replay)
     rc, log = vlib.run(cmd, env=dict(os.environ, VERIF_SEED=str(ctx.seed)), timeout=3300)
@@ -172,8 +320,32 @@ def run_harness(ctx, h, replay=None):
 
 
 def run(ctx):
+    import threading
     h = vlib.build_harness(ctx, 'c12')
-    cases = run_harness(ctx, h, replay=ctx.replay)
+    # the real binary on the disk-phase file sets, next to the in-process runs (its verdicts need their results)
+    scen = [] if ctx.replay else disk_scenarios(ctx)
+    rp = json.load(open(ctx.replay)) if ctx.replay else None
+    if rp and rp.get('binary') and 'case' in rp:
+        scen = [{'name': 'replay', 'files': files_plain(rp['case']['files']), 'rules': rp['case']['rules'], 'mode': rp['case']['mode']}]
+    disk = {}
+
+    def _disk():
+        try:
+            regal = vlib.build_regal(ctx)
+            pool = []
+            for n, sc in enumerate(scen):
+                c_ = {'files': {p: t.encode('utf-8', 'surrogateescape') for p, t in sc['files'].items()}, 'rules': sc['rules'], 'mode': sc['mode']}
+                t = threading.Thread(target=lambda n=n, sc=sc, c_=c_: disk.__setitem__(sc['name'], binary_disk_run(regal, os.path.join(ctx.tmp, 'disk_%d' % n), c_)))
+                t.start()
+                pool.append(t)
+            for t in pool:
+                t.join()
+        except BaseException as e:     # re-raised in the main thread
+            disk['exc'] = e
+    th = threading.Thread(target=_disk)
+    if scen:
+        th.start()
+    cases = run_harness(ctx, h, replay=ctx.replay, extra_corpus=None if ctx.replay else scen)
     meta = [c for c in cases if c.get('kind') == 'meta']
     cases = [c for c in cases if c.get('kind') == 'set']
     sets = [c for c in cases if c.get('lintable')]
@@ -218,8 +390,19 @@ def run(ctx):
 
     # ---- thorough tier: the real binary on the regression file sets (files on disk after regal fix --force) -----
     cli = {'run': 0, 'timeouts': 0, 'diffs': 0}
+    if scen:
+        th.join()
+        if 'exc' in disk:
+            raise disk['exc']
+        for sc in scen:
+            match = [c for c in sets if c['src'] == ('replay' if ctx.replay else 'corpus:' + sc['name'])]
+            if not match:
+                if not ctx.replay:
+                    raise RuntimeError('disk scenario %s is not lintable: the generator of tools/props/c12.py is broken' % sc['name'])
+                continue
+            binary_disk_verdicts(match[0], disk[sc['name']], report, cli)
     if not ctx.quick() and not ctx.replay:
-        binary_runs(ctx, [c for c in sets if c['src'].startswith('corpus:')], cli, report)
+        binary_runs(ctx, [c for c in sets if c['src'].startswith('corpus:') and not c['src'].startswith('corpus:disk-')], cli, report)
 
     # ---- correspondence: one iteration of the model loop per recorded iteration ---------------------------------
     E = Enc()
@@ -297,7 +480,9 @@ def run(ctx):
         'conflicts_reported': sum(1 for c in sets if c['conflicts']),
         'rule_subsets': dict(hist), 'modes': dict(collections.Counter(c['mode'] for c in sets)),
         'errors': dict(collections.Counter(c['err'] or 'none' for c in sets)),
-        'mismatch_model_iteration': len(r1), 'predicate_failures': dict(classes), 'binary_runs_on_corpus': cli,
+        'mismatch_model_iteration': len(r1), 'predicate_failures': dict(classes), 'binary_runs': cli,
+        'disk_phase_file_sets': [{'name': sc['name'], 'files': sorted(sc['files']), 'rules': sc['rules'], 'mode': sc['mode'],
+                                  'after_fix': sorted(disk[sc['name']]['after_fix'][0]) if sc['name'] in disk else None} for sc in scen],
         'samples': [{'files': files_plain(c['files']), 'rules': c['rules'], 'mode': c['mode'], 'iterations': c['iters'],
                      'result': files_plain(c['final'])} for c in nontrivial[:2]],
         'exhaustive': False,
@@ -312,5 +497,7 @@ def run(ctx):
         'with the formatter and directory-package-mismatch are covered by the harness only',
         'the order in which the linter returns violations of different files is a permutation argument of the correspondence',
         'names chosen after a rename conflict (renameCandidate) are not modelled here (C13)',
-        'regal fix (cmd/fix.go) writes the provider contents to disk after Fixer.Fix returned without error: not driven here',
+        'regal fix (cmd/fix.go) writes the provider contents to disk after Fixer.Fix returned without error: driven through the '
+        'real binary on a handful of file sets per run (disk phase: moves into emptied directories, swaps, chains), and on every '
+        'regression file set in the thorough tier; the conservation of files by that phase is C13\'s subject',
     ])
